@@ -3,7 +3,7 @@
   statements pinned as text in `Gen.kabsch_steps`, `Gen.superpose_selection_steps`,
   `GenD.kabsch_guard_steps`, `GenD.quat_glue_steps`, `GenD.dispatch_steps` (see `Pins/D.lean`); the
   entry formulas (`Gen.quat_F`, `Gen.quat_rot`) are the translated ones.  `np.linalg.svd` and
-  `np.linalg.eig` are parameters (their contracts are hypotheses of the theorems; the driver passes
+  `np.linalg.eigh` are parameters (their contracts are hypotheses of the theorems; the driver passes
   NumPy's own factors).  Core Lean only: runs over `Rat` in the driver.
 -/
 import PdbVerif.Py.Mat
@@ -82,14 +82,14 @@ def argmax : List α → Nat
   | [] => 0
   | x :: t => argmaxFrom x 0 1 t
 
-/-- `get_rotation_matrix_quaternion(P, Q)`; `eig F` = the pairs `(l[k], U[:, k])` in NumPy's order -/
+/-- `get_rotation_matrix_quaternion(P, Q)`; `eig F` = the pairs `(l[k], U[:, k])` of `np.linalg.eigh(F)` in NumPy's order (eigenvalues ascending) -/
 def quaternion (eig : Mat4 α → List (α × Vec4 α)) (eps : α) (P Q : List (Vec3 α)) : Except Err (Mat3 α) :=
   match guards eps P Q with
   | .error e => .error e
   | .ok () =>
     let R := dotPtQ P Q                                 -- R = np.dot(P.T, Q)
     let F := Gen.quat_F R                               -- F[i, j] = …
-    let lU := eig F                                     -- l, U = np.linalg.eig(F)
+    let lU := eig F                                     -- l, U = np.linalg.eigh(F)
     let indmax := argmax (lU.map Prod.fst)              -- indmax = np.argmax(l)
     match lU[indmax]? with
     | none => .error .indexError
@@ -103,9 +103,10 @@ structure SvdContract [LE α] (A V : Mat3 α) (s : Vec3 α) (Wt : Mat3 α) : Pro
   orthW : Wt.mul Wt.T = Mat3.one ∧ Wt.T.mul Wt = Mat3.one
   order : s.y ≤ s.x ∧ s.z ≤ s.y ∧ 0 ≤ s.z
 
-/-- what the theorems assume of the pair `(l[indmax], U[:, indmax])` of `np.linalg.eig(F)`: a unit
-    eigenvector whose eigenvalue dominates the quadratic form of `F` (= is the largest eigenvalue;
-    `Proofs.Quat.eigContract_of_decomposition` derives it from an orthogonal eigendecomposition). -/
+/-- what the theorems assume of the pair `(l[indmax], U[:, indmax])` of `np.linalg.eigh(F)` (symmetric solver:
+    real eigenvalues in ascending order, orthonormal real eigenvectors; `argmax` picks the last column): a unit
+    eigenvector whose eigenvalue dominates the quadratic form of `F` (= is the largest eigenvalue).
+    `Proofs.Quat.eigContract_of_decomposition` derives it from the orthogonal eigendecomposition `eigh` returns. -/
 structure EigContract [LE α] (F : Mat4 α) (lam : α) (q : Vec4 α) : Prop where
   eigen : F.mulVec q = ⟨lam * q.w, lam * q.x, lam * q.y, lam * q.z⟩
   unit : Vec4.dot q q = 1
